@@ -38,7 +38,7 @@ TimeAnswers(v) ==
 Kisses(v) ==
   IF v = 5 THEN
      { x \in { [Base(v) EXCEPT !.stratum = 0, !.poll = q, !.authnak = n] :
-                  q \in {MinPoll, MaxPoll + 1, NEVER}, n \in BOOLEAN } : ~(x.authnak /\ x.poll # MinPoll) }
+                  q \in {MinPoll, MaxPoll + 1, 100, NEVER}, n \in BOOLEAN } : ~(x.authnak /\ x.poll # MinPoll) }
   ELSE { [Base(v) EXCEPT !.stratum = 0, !.code = c] : c \in {"RATE", "DENY", "RSTR", "NTSN", "XXXX"} }
 
 \* well-formed but unusable / stale / misdirected variants of an answer x
@@ -53,6 +53,9 @@ NtsAttacks(x) ==
   { [x EXCEPT !.seal = "other"], [x EXCEPT !.seal = "tampered"],
     [x EXCEPT !.seal = "none", !.ua = "none", !.uu = "ok", !.cUnt = x.cEnc, !.cEnc = <<>>],
     [x EXCEPT !.seal = "none", !.ua = "none", !.uu = "none"],
+    \* NAK markings (reference id "NTSN" / v5 NAK flag) on a datagram that is not a KISS packet
+    [x EXCEPT !.seal = "none", !.ua = "none", !.uu = "ok", !.code = IF x.ver = 5 THEN "none" ELSE "NTSN",
+              !.authnak = (x.ver = 5), !.poll = MinPoll],
     [x EXCEPT !.ua = "bad"], [x EXCEPT !.ua = "none", !.ue = "ok"], [x EXCEPT !.ua = "none", !.ue = "bad"],
     [x EXCEPT !.ua = "none", !.uu = "ok"], [x EXCEPT !.uu = "bad"],
     [x EXCEPT !.cAuth = x.cEnc, !.cEnc = <<>>], [x EXCEPT !.cUnt = x.cEnc] }
